@@ -90,7 +90,7 @@ func targets(w *bx.World) []target {
 	add(target{Name: "tokens.UnmarshalTokenChallenge", Run: func(in []byte) bool {
 		_, err := tokens.UnmarshalTokenChallenge(in)
 		return err == nil
-	}, Seeds: []bx.Seed{{Name: "challenge", Msg: w.Challenge, Fields: []bx.Field{{0, 2}, {2, 2}, {18, 1}, {51, 2}}}}})
+	}, Seeds: []bx.Seed{{Name: "challenge", Msg: w.Challenge, Fields: []bx.Field{{0, 2}, {2, 2}, {18, 1}, {51, 2}}, Delims: []byte{','}}}})
 
 	add(target{Name: "type1.UnmarshalPrivateToken+Verify", Step: true, Run: func(in []byte) bool {
 		t, err := type1.UnmarshalPrivateToken(in)
